@@ -37,8 +37,9 @@ type CmdDef struct {
 	Unknown      int      `json:"unknown_mode,omitempty"` // -1 = inherit (0 is a mode), stored +1
 	SelfName     string   `json:"self_name,omitempty"`    // Self(name, description) called on the command: its display name in help
 	ArgComp      []string `json:"arg_completions,omitempty"`
-	ArgCompPanic bool     `json:"arg_completion_fn_panics,omitempty"` // the last completion callback panics (a nil map write in the program's own code)
-	ArgCompFns   int      `json:"arg_completion_fns,omitempty"`       // number of ArgCompletionsFns callbacks (overlapping results, calls are logged)
+	ArgCompOwned bool     `json:"arg_completion_fn_owned_table,omitempty"` // the first completion callback returns a table the program keeps and reuses (one entry)
+	ArgCompPanic bool     `json:"arg_completion_fn_panics,omitempty"`      // the last completion callback panics (a nil map write in the program's own code)
+	ArgCompFns   int      `json:"arg_completion_fns,omitempty"`            // number of ArgCompletionsFns callbacks (overlapping results, calls are logged)
 	Synopsis     []string `json:"synopsis_args,omitempty"`
 }
 
@@ -240,6 +241,7 @@ func genCmd(r *simrt.RNG, name string, taken map[string]bool, depth int, reqBias
 	if r.Intn(6) == 0 {
 		c.ArgCompFns = 1 + r.Intn(2)
 		c.ArgCompPanic = r.Intn(8) == 0
+		c.ArgCompOwned = r.Intn(3) == 0
 	}
 	if depth < 4 && r.Intn(1+2*depth) == 0 {
 		used := map[string]bool{}
@@ -326,10 +328,17 @@ func Generate(seed uint64) *Scenario {
 	sc.Root = CmdDef{Name: "prog", Fn: r.Intn(2) == 0}
 	if r.Intn(4) == 0 {
 		sc.Root.Synopsis = []string{"<src>", "<dst>", "<mode>"}[:1+r.Intn(3)]
+		if r.Intn(4) == 0 { // described but unnamed arguments
+			sc.Root.Synopsis = append(sc.Root.Synopsis, "", "")
+		}
+		if r.Intn(4) == 0 { // a name longer than any option synopsis
+			sc.Root.Synopsis = append(sc.Root.Synopsis, "<the-name-of-the-directory-that-receives-the-output-files>")
+		}
 	}
 	if r.Intn(6) == 0 { // completion callbacks on the program itself, next to its commands
 		sc.Root.ArgCompFns = 1 + r.Intn(2)
 		sc.Root.ArgCompPanic = r.Intn(4) == 0
+		sc.Root.ArgCompOwned = r.Intn(3) == 0
 	}
 	sc.Root.Opts = genOpts(r, taken, 2+r.Intn(7), reqBias)
 	if r.Intn(4) == 0 {
